@@ -19,6 +19,8 @@ CONSTANTS
   ParserContinuesAfterShortRange = FALSE
   Budget0PlansNothing = TRUE
   TailInitPersistsZero = FALSE
+  CkptCountedOnEveryReport = FALSE
+  NewProcReopen = FALSE
 INVARIANTS RefinesCex
 VIEW View
 CHECK_DEADLOCK FALSE
